@@ -45,10 +45,13 @@ FILTER_FORMS = ('text', 'bytes', 'element', 'subelement', 'shared')
 NOFILTER_FORMS = ('none', 'default', 'command', 'getconf')
 
 def filter_object(fstr, form='text', shared=None):
-    """The object handed over as filter_xml for the filter written `fstr` (XML text)."""
+    """The object handed over as filter_xml for the filter written `fstr` (XML text).  `shared`: a dictionary that
+    lives as long as the caller wants objects to be reused (one session's requests; or, in the several-sessions
+    family, all sessions of the process): with it the SAME str / bytes object is handed over for equal filters, and
+    form 'shared' hands over the same element object."""
     from lxml import etree
-    if form in (None, 'text'): return fstr
-    if form == 'bytes': return fstr.encode()
+    if form in (None, 'text'): return fstr if shared is None else shared.setdefault(('text', fstr), fstr)
+    if form == 'bytes': return fstr.encode() if shared is None else shared.setdefault(('bytes', fstr), fstr.encode())
     if form == 'element': return etree.fromstring(fstr)
     if form == 'subelement':
         return etree.fromstring('<filter><before/>' + fstr + '<after>t</after></filter>')[1]
@@ -113,16 +116,16 @@ class _FakeSelectorsModule:
     DefaultSelector = _FakeSelector
 
 _ids = None
-def _install():
+def _install(start=1):
     """Rebind the module-level names ncclient imported (no source hooks): the selector used by Session.run and the
-    uuid4 used for message-ids."""
+    uuid4 used for message-ids (the next request gets urn:uuid:<start>)."""
     global _ids
     import ncclient.transport.session as S
     import ncclient.operations.rpc as R
     S.selectors = _FakeSelectorsModule
     class _U:
         def __init__(self, n): self.urn = 'urn:uuid:%08d' % n
-    cnt = itertools.count(1)
+    cnt = itertools.count(start)
     R.uuid4 = lambda: _U(next(cnt))
     _ids = cnt
 
@@ -163,12 +166,14 @@ def reply_bytes(mid, body, nc=False, extra_attrs=''):
         return ('<nc:rpc-reply xmlns:nc="%s" message-id="%s"%s>%s</nc:rpc-reply>' % (BASE_NS, mid, extra_attrs, body)).encode()
     return ('<rpc-reply message-id="%s"%s>%s</rpc-reply>' % (mid, extra_attrs, body)).encode()
 
-def issue_requests(s, dh, filters, forms=None):
+def issue_requests(s, dh, filters, forms=None, shared=None):
     """len(filters) pipelined requests on session s.  filters[i]: filter string or None; forms[i]: how it is handed
-    over (FILTER_FORMS) resp. how the request comes to have no filter (NOFILTER_FORMS); default text / None."""
+    over (FILTER_FORMS) resp. how the request comes to have no filter (NOFILTER_FORMS); default text / None.
+    shared: the dictionary of filter objects to reuse (default: one per call, i.e. per session)."""
     from ncclient.operations.third_party.juniper.rpc import ExecuteRpc, Command, GetConfiguration
     from ncclient.operations import RaiseMode
-    objs, shared = [], {}
+    objs = []
+    if shared is None: shared = {}
     kw = dict(async_mode=True, raise_mode=RaiseMode.NONE, timeout=1)
     for i, f in enumerate(filters):
         form = (forms[i] if forms else None) or default_form(f)
@@ -208,19 +213,21 @@ def collect_results(objs, dh):
             res.append(('pending',))
     return res
 
-def run_stream(segments, filters, use_filter=True, forms=None, base=10):
+def run_stream(segments, filters, use_filter=True, forms=None, base=10, id0=0):
     """One session, len(filters) pipelined requests (filter string or None; forms: see issue_requests), the given
     read segments (base=11: the session uses chunked framing).  Returns a list with one outcome per request:
       ('reply', raw xml text, transformed xml text) | ('error', class name) | ('pending',)"""
     s, dh = make_session(use_filter, base)
+    if id0: _install(id0 + 1)
     objs = issue_requests(s, dh, filters, forms)
     s.segments = list(segments)
     s.run()
     return collect_results(objs, dh)
 
-def ids_for(n):
-    """The message-ids the next make_session()+n requests will get: ids restart at 1 per _install()."""
-    return ['urn:uuid:%08d' % (i + 1) for i in range(n)]
+def ids_for(n, id0=0):
+    """The message-ids the next make_session()+n requests will get: ids restart at 1 per _install() (id0: the
+    number of ids handed out before, see run_stream(id0=))."""
+    return ['urn:uuid:%08d' % (id0 + i + 1) for i in range(n)]
 
 def cuts_to_segments(stream, cuts):
     cuts = sorted(set(c for c in cuts if 0 < c < len(stream)))
